@@ -10,7 +10,7 @@ VARIABLE parts
 OccSet == {<<1, 1>>, <<0, 1>>, <<0, U>>, <<1, U>>}
 Slots == << 0..3, {"flat", "chain"}, BOOLEAN, {"string", "Base"}, {"same", "Ext"}, OccSet, BOOLEAN,
             {"none", "elem", "elemAbstractBase"},
-            {"single", "include", "import", "chameleon"}, {"none", "one", "opt", "many"}, BOOLEAN, BOOLEAN, {"none", "other", "any"}, BOOLEAN, 0..MaxDocIdx >>
+            {"single", "include", "import", "chameleon", "importSameName"}, {"none", "one", "opt", "many"}, BOOLEAN, BOOLEAN, {"none", "other", "any"}, BOOLEAN, 0..MaxDocIdx >>
 NSlots == Len(Slots)
 NCore == 8
 
